@@ -11,8 +11,10 @@ namespace Fit.C14
 open Fit.FileDef Fit.FileDef.Generated
 
 /-- Obligation on the regenerated tables (all 17 file types): slot numbers are distinct, no message number is
-dropped, the observed kind of every slot (singleton / list) is the kind the exported struct declares, the first three slots are file_id (value), developer_data_id, field_description (lists), and the sort
-never starts inside this prefix. A file type that drops a message kind or moves the prefix breaks this. -/
+dropped, the observed kind of every slot (singleton / list) is the kind the exported struct declares, every typed field
+the struct declares is a slot `Add` fills (`declOnly = []`), the first three slots are file_id (value), developer_data_id,
+field_description (lists), and the sort never starts inside this prefix. A file type that drops a message kind, leaves a
+declared field unfilled or moves the prefix breaks this. -/
 theorem C14_tables_ok : ∀ T ∈ fileTypes, TableOK T := by decide
 
 /-! The file-type theorems are proved once for any representation of a message (`FileDef.Carrier`,
